@@ -214,9 +214,35 @@ fn deep_chain(cfg: ClaimCfg) -> BoxedStrategy<Value> {
     .boxed()
 }
 
+/// two different members whose dotted / bracketed locations read the same:
+/// {"a.b": X, "a": {"b": Y}}  and  {"list[0]": X, "list": [Y]}
+fn aliasing_siblings(cfg: ClaimCfg) -> BoxedStrategy<Vec<(String, Value)>> {
+    (value_strategy(cfg, 2), value_strategy(cfg, 2), any::<bool>(), any::<bool>())
+        .prop_map(|(x, y, dotted, objects)| {
+            let wrap = |v: Value| if objects { let mut m = Map::new(); m.insert("q".into(), v); Value::Object(m) } else { v };
+            if dotted {
+                let mut inner = Map::new();
+                inner.insert("b".into(), wrap(y));
+                vec![("a.b".to_string(), wrap(x)), ("a".to_string(), Value::Object(inner))]
+            } else {
+                vec![("list[0]".to_string(), wrap(x)), ("list".to_string(), Value::Array(vec![wrap(y)]))]
+            }
+        })
+        .boxed()
+}
+
 pub fn claims_strategy(cfg: ClaimCfg) -> BoxedStrategy<Value> {
     let member = prop_oneof![12 => value_strategy(cfg, 6), 1 => deep_chain(cfg)];
-    let members = vec((name_strategy(cfg), member), 0..7);
+    let plain = vec((name_strategy(cfg), member), 0..7);
+    let members: BoxedStrategy<Vec<(String, Value)>> = if cfg.path_safe_names {
+        plain.boxed()
+    } else {
+        prop_oneof![
+            15 => plain.clone(),
+            1 => (plain, aliasing_siblings(cfg)).prop_map(|(mut a, b)| { a.extend(b); a }),
+        ]
+        .boxed()
+    };
     (
         members,
         select(ISS_VALUES),
@@ -274,7 +300,7 @@ pub fn holder_strategy() -> BoxedStrategy<HolderKey> {
     prop_oneof![2 => Just(HolderKey::None), 1 => Just(HolderKey::Ec), 1 => Just(HolderKey::Ed)].boxed()
 }
 
-const AUD_NONCE: &[&str] = &["https://verifier.example.org", "1234567890", "", "a", "audience with spaces", "ノンス", "😀", "\"", "a~b", "x.y.z", "\\", "\u{0}"];
+const AUD_NONCE: &[&str] = &["https://verifier.example.org", "https://verifier.example.org/", "https://Verifier.example.org/cb/", "1234567890", "", "a", "audience with spaces", "ノンス", "😀", "\"", "a~b", "x.y.z", "\\", "\u{0}"];
 pub fn aud_nonce_strategy() -> BoxedStrategy<String> {
     prop_oneof![
         3 => select(AUD_NONCE).prop_map(String::from),
@@ -336,7 +362,7 @@ pub fn selection_for(spec: &IssueSpec, ch: &[u16], opts: SelOpts) -> Map<String,
 
 pub fn kb_strategy(holder: HolderKey) -> BoxedStrategy<Option<KbArgs>> {
     if holder.is_some() {
-        prop::option::weighted(0.7, (aud_nonce_strategy(), aud_nonce_strategy()).prop_map(move |(aud, nonce)| KbArgs { aud, nonce, key: holder })).boxed()
+        prop::option::weighted(0.7, (aud_nonce_strategy(), aud_nonce_strategy()).prop_map(move |(aud, nonce)| KbArgs { default_alg: false, aud, nonce, key: holder })).boxed()
     } else {
         Just(None).boxed()
     }
